@@ -610,8 +610,10 @@ def rule_AI23(rep, prog):
             continue
         n += 1
         rep.saw(fn)
-        v = cap(sts[-1].ops[0])
-        ok = v is not None and all(any(cap(o) == v for o in t.ops) for t in cmps)
+        vs = {cap(st.ops[0]) for st in sts} - {None}       # the new value may be stored on one arm and its floor (1 when 0 was given) on the other
+        v = next(iter(vs)) if len(vs) == 1 else None
+        cmps = [t for t in cmps if not all(o[0] == "c" or cap(o) is not None for o in t.ops)]   # (a test of the new value alone, `new ? new : 1`, is not a comparison of marks)
+        ok = v is not None and bool(cmps) and all(any(cap(o) == v for o in t.ops) for t in cmps)
         rep.require(rid, ok, cmps[0].loc, fn.name, "water-mark-compared-with-stale-value:%s" % mine,
                     "%s adjusts the `%s` water mark by comparing it with something other than the new `%s` value it stores: after set_high_water(H) followed by "
                     "set_low_water(L > H) the channel has low > high" % (fn.name, other, mine), sample={"fn": fn.name})
